@@ -240,3 +240,23 @@ def finallylost_ok(stack, fns):
             f()
     finally:
         stack.pop()
+
+
+def staledep1(merge, aliases, make):
+    below = []
+    for entry in merge.table[merge.index:]:
+        below.append(entry)
+    while True:
+        covered = [e for e in below if e in aliases]
+        if not covered:
+            return merge
+        merge = make(merge, covered)
+
+
+def staledep_ok(merge, aliases, make):
+    while True:
+        below = [e for e in merge.table[merge.index:]]
+        covered = [e for e in below if e in aliases]
+        if not covered:
+            return merge
+        merge = make(merge, covered)
